@@ -167,6 +167,11 @@ func runProve(po proveOpts) (res proveResult) {
 		}
 		return proveResult{code: 2, lines: []string{msg}}
 	}
+	if os.Getenv("GVC_NO_EVIDENCE") != "" {
+		// runs against a deliberately changed tree (seeded changes) must not overwrite the
+		// evidence of the unchanged tree
+		po.noEvidence = true
+	}
 	seed, _ := strconv.Atoi(os.Getenv("VERIF_SEED"))
 	start := time.Now()
 	evPath := filepath.Join(verifRoot, "evidence", prop+".json")
